@@ -1,5 +1,5 @@
 (* C09: hermitian_conjugated, is_hermitian, reverse_qubit_order and get_expectation_value against the denotation. *)
-Require Import Coq.setoid_ring.Ring Coq.Lists.List Coq.Bool.Bool Coq.Arith.Arith Coq.micromega.Lia.
+Require Import Coq.setoid_ring.Ring Coq.Lists.List Coq.Bool.Bool Coq.Arith.Arith Coq.micromega.Lia Coq.Sorting.Permutation.
 Require Import OQ.Base.Ring OQ.Base.Sums OQ.Base.Bits OQ.Base.Mat OQ.Pauli.Algebra OQ.Pauli.Den OQ.Pauli.Matrix
   OQ.Pauli.SumProofs OQ.Pauli.OpsProofs OQ.Pauli.MatrixProofs OQ.Pauli.MatrixCooProofs.
 Import ListNotations.
@@ -220,6 +220,22 @@ Section MatrixOpsProofs.
     apply (py_eq_sound K is_zero keqb is_zero_exact keqb_sound n a b); try assumption.
     destruct a as [t|s|c]; cbn [herm_conj_op] in E; inversion E; subst; cbn [simplified_operand]; [exact I|].
     apply herm_conj_simplified.
+  Qed.
+
+  (* the same for every operand: a sum that passes the test has as many terms as its (simplified) conjugate,
+     hence no repeated term, hence is a permutation of it *)
+  Theorem is_hermitian_sound_any n (a : operand K) :
+    is_hermitian is_zero keqb a = Some true -> mat_eq (2 ^ n) (oden n a) (adj (oden n a)).
+  Proof.
+    destruct a as [t|s|c]; unfold is_hermitian; cbn [herm_conj_op py_eq]; intro H; [| |discriminate]; injection H as H;
+      intros i j _ _; cbn [oden].
+    - rewrite <- term_conj_den. apply (term_eqb_den K is_zero keqb is_zero_exact keqb_sound). exact H.
+    - rewrite <- herm_conj_sden. set (h := herm_conj is_zero s) in *.
+      unfold sum_eqb in H. apply andb_true_iff in H. destruct H as [H Hb]. apply andb_true_iff in H. destruct H as [Hl Ha].
+      apply Nat.eqb_eq in Hl. apply (set_incl_incl K keqb keqb_sound) in Ha, Hb.
+      assert (Hh : NoDup h) by (apply distinct_nodup; apply herm_conj_simplified).
+      assert (Hs : NoDup s) by (apply (@NoDup_incl_NoDup _ h s Hh); [lia|exact Hb]).
+      apply sden_perm. apply NoDup_Permutation; [exact Hs|exact Hh|]. intro t. split; [apply Ha|apply Hb].
   Qed.
 
   (* ---------------------------------------------------------------- reverse_qubit_order *)
